@@ -769,7 +769,7 @@ Section PassInversion.
     exists mem1 w0 sets1 w2 pr pre,
       os_id mem1 = os_id mem0 /\ os_phases mem1 = os_phases mem0 /\ os_life mem1 = os_life mem0 /\
       os_gen mem1 = os_gen mem0 /\ os_conds mem1 = os_conds mem0 /\
-      w_store w0 = w_store (sw_w sw) /\ dup_count [] (all_objects mem1) = O /\
+      w_store w0 = w_store (sw_w sw) /\ dup_count [] (map (spec_key mem1) (all_objects mem1)) = O /\
       reconcile_phases force w0 (as_owner mem1) (lookup_prev sets1 mem1) (local_phases mem1) [] = (w2, member_evs evs, pr) /\
       w_store (sw_w sw') = w_store w2 /\ member_evs pre = [] /\
       match pr with
@@ -805,7 +805,7 @@ Section PassInversion.
     (w_store (sw_w sw') = w_store (sw_w sw0) /\ Forall (status_keeps mem0) evs) \/
     exists mem1 w0 sets1 w2 pr pre,
       same_spec mem1 mem0 /\
-      w_store w0 = w_store (sw_w sw0) /\ dup_count [] (all_objects mem1) = O /\
+      w_store w0 = w_store (sw_w sw0) /\ dup_count [] (map (spec_key mem1) (all_objects mem1)) = O /\
       reconcile_phases force w0 (as_owner mem1) (lookup_prev sets1 mem1) (local_phases mem1) [] = (w2, member_evs evs, pr) /\
       w_store (sw_w sw') = w_store w2 /\ Forall (status_keeps mem0) pre /\
       match pr with
@@ -846,11 +846,11 @@ Section PassInversion.
       split; [rewrite find_set_cond_other by (cbn; discriminate); now rewrite Hcond1|]. reflexivity. }
     destruct rr.
     - (* RevGo *)
-      destruct (Nat.ltb 0 (dup_count [] (all_objects mem1))) eqn:Edup.
+      destruct (Nat.ltb 0 (dup_count [] (map (spec_key mem1) (all_objects mem1)))) eqn:Edup.
       + intros H. destruct (Hfail _ _ _ _ _ _ H) as (Hst & ok & m' & -> & Ha & Hsu & _).
         left. split; [congruence|]. apply Forall_app. split; [assumption|]. constructor; [|constructor].
         cbn. split; [reflexivity|]. split; [right; eexists; split; [exact Ha|reflexivity]|assumption].
-      + apply Nat.ltb_ge in Edup. assert (Hdup : dup_count [] (all_objects mem1) = O) by lia.
+      + apply Nat.ltb_ge in Edup. assert (Hdup : dup_count [] (map (spec_key mem1) (all_objects mem1)) = O) by lia.
         destruct (reconcile_phases force (sw_w sw1) (as_owner mem1) _ _ []) as [[w2 pevs] pr] eqn:Erp.
         intros H. right.
         assert (Hmem : forall tail, member_evs tail = [] -> member_evs ((evs0 ++ evs1 ++ map SMember pevs) ++ tail) = pevs).
@@ -931,7 +931,7 @@ Section SetLevel.
     (w_store (sw_w sw') = w_store (sw_w sw) /\ Forall (status_keeps mem0) evs) \/
     exists mem1 w0 sets1 w2 pr pre,
       same_spec mem1 mem0 /\
-      w_store w0 = w_store (sw_w sw) /\ dup_count [] (all_objects mem1) = O /\
+      w_store w0 = w_store (sw_w sw) /\ dup_count [] (map (spec_key mem1) (all_objects mem1)) = O /\
       reconcile_phases force w0 (as_owner mem1) (lookup_prev sets1 mem1) (local_phases mem1) [] = (w2, member_evs evs, pr) /\
       w_store (sw_w sw') = w_store w2 /\ Forall (status_keeps mem0) pre /\
       match pr with
@@ -1049,7 +1049,7 @@ Section SetLevel.
 
   (** C11: an ObjectSet that lists the same object twice (as written) sends no request for any member. *)
   Theorem C11_duplicate_writes_nothing sw k ns n mem0 sw' evs r :
-    find_set (sw_sets sw) k ns n = Some mem0 -> is_active mem0 -> dup_count [] (all_objects mem0) <> O ->
+    find_set (sw_sets sw) k ns n = Some mem0 -> is_active mem0 -> dup_count [] (map (spec_key mem0) (all_objects mem0)) <> O ->
     objectset_pass force sw k ns n = (sw', evs, r) ->
     member_evs evs = [] /\ w_store (sw_w sw') = w_store (sw_w sw).
   Proof.
@@ -1057,7 +1057,10 @@ Section SetLevel.
     destruct (objectset_pass_active _ _ _ _ _ _ _ _ Hfind Hact H) as [[Hst Hkeep]|Hr].
     - split; [now apply (status_keeps_members mem0)|assumption].
     - destruct Hr as (mem1 & w0 & sets1 & w2 & pr & pre0 & Hs & _ & Hdup & _). exfalso. apply Hd.
-      destruct Hs as (_ & Hph & _). unfold all_objects in *. now rewrite <- Hph.
+      destruct Hs as (Hid & Hph & _).
+      assert (Heq : map (spec_key mem0) (all_objects mem0) = map (spec_key mem1) (all_objects mem1)).
+      { unfold all_objects. rewrite Hph. apply map_ext. intros p. unfold spec_key, desired_key, as_owner. cbn. now rewrite Hid. }
+      now rewrite Heq.
   Qed.
 
   (** C06: Available=True is newly written only for the generation the pass read, only when every phase
@@ -1110,7 +1113,6 @@ Section SetLevel.
       destruct Hs as (_ & _ & _ & Hg & _).
       assert (Hsc : forall key, seen_controlled w2 (as_owner mem1) key <-> seen_controlled (sw_w sw') (as_owner mem0) key).
       { intros key. unfold seen_controlled. rewrite Hw2, Hid. tauto. }
-      pose proof (nodup_same _ _ (conj (f_equal _ eq_refl) (conj eq_refl (conj eq_refl (conj eq_refl (conj eq_refl (conj eq_refl eq_refl)))))) Hnd) as _.
       assert (Hnd1 : NoDup (flat_map (phase_keys (as_owner mem1)) (local_phases mem1))).
       { rewrite Hl. erewrite flat_map_ext; [exact Hnd|]. intros ph. unfold phase_keys. apply map_ext. exact Hk. }
       split; [congruence|]. split; [reflexivity|]. split; [|split].
@@ -1125,3 +1127,508 @@ Section SetLevel.
         * now apply Hsc.
   Qed.
 End SetLevel.
+
+(** * Deletion and archival (C04, C05 orphan clause, C06 archival clauses) *)
+Section Deletion.
+  Variable force : bool.
+
+  Definition teardown_of (sw : sworld) (mem : oset) : world * list ev * tdphres :=
+    if os_fin mem then
+      if os_orphan mem then (sw_w sw, [], TdOk true)
+      else teardown_phases force (sw_w sw) (as_owner mem) (rev (local_phases mem))
+    else (sw_w sw, [], TdOk true).
+
+  (** Shape of a deletion/archival pass: the member requests are exactly those of the teardown; the
+      finalizer is removed, or Archived=True sent, only after the teardown reported all phases done. *)
+  Lemma deletion_pass_inv sw mem sw' evs r :
+    deletion_pass force sw mem = (sw', evs, r) ->
+    exists w1 tevs td,
+      teardown_of sw mem = (w1, tevs, td) /\ member_evs evs = tevs /\ w_store (sw_w sw') = w_store w1 /\
+      (forall ok, In (SMeta (MFinalizer false ok)) evs -> td = TdOk true /\ os_fin mem = true) /\
+      (forall rev0 conds ctrlof rem fph ok, In (SMeta (MStatus rev0 conds ctrlof rem fph ok)) evs ->
+         find_cond conds CAvailable = None /\ fph = None /\ os_life mem = LArchived /\
+         (cond_true conds CArchived = true -> td = TdOk true /\ ctrlof = [])) /\
+      (forall added ok, In (SMeta (MFinalizer added ok)) evs -> added = false).
+  Proof.
+    unfold deletion_pass.
+    change (if os_fin mem then if os_orphan mem then (sw_w sw, [], TdOk true)
+            else teardown_phases force (sw_w sw) (as_owner mem) (rev (filter (fun ph => negb (ph_class ph)) (os_phases mem)))
+            else (sw_w sw, [], TdOk true)) with (teardown_of sw mem).
+    destruct (teardown_of sw mem) as [[w1 tevs] td] eqn:Etd.
+    set (archived := lifecycle_eqb (os_life mem) LArchived).
+    assert (Harch : archived = true -> os_life mem = LArchived) by (subst archived; destruct (os_life mem); cbn; congruence).
+    (* the common tail *)
+    assert (Hfinish : forall sw1 evs1 mem1 swf evsf rf,
+       (if negb archived then (sw1, evs1, SDone false)
+        else let '(sw'', _, ok) := update_status sw1 (set_conds mem1 (remove_cond (os_conds mem1) CAvailable)) in
+             (sw'', evs1 ++ [status_ev (set_conds mem1 (remove_cond (os_conds mem1) CAvailable)) ok], if ok then SDone false else SError)) = (swf, evsf, rf) ->
+       w_store (sw_w swf) = w_store (sw_w sw1) /\
+       (evsf = evs1 \/ exists ok, archived = true /\ evsf = evs1 ++ [status_ev (set_conds mem1 (remove_cond (os_conds mem1) CAvailable)) ok])).
+    { intros sw1 evs1 mem1 swf evsf rf. destruct (negb archived) eqn:Ea.
+      - intros H. injection H as <- <- _. auto.
+      - destruct (update_status sw1 _) as [[sw2 m2] ok] eqn:Eu. intros H. injection H as <- <- _.
+        split; [eapply update_status_store; eauto|]. right. exists ok. apply negb_false_iff in Ea. auto. }
+    assert (Hmem_members : member_evs (map SMember tevs) = tevs) by apply member_evs_members.
+    assert (Hstatus_fact : forall mem1 (rev0 : Z) conds ctrlof rem fph ok ok',
+       SMeta (MStatus rev0 conds ctrlof rem fph ok) = status_ev (set_conds mem1 (remove_cond (os_conds mem1) CAvailable)) ok' ->
+       find_cond conds CAvailable = None /\ fph = None /\ conds = remove_cond (os_conds mem1) CAvailable /\ ctrlof = os_ctrlof mem1).
+    { intros mem1 rev0 conds ctrlof rem fph ok ok' He. unfold status_ev, status_ev_f in He. injection He as _ -> -> _ -> _.
+      cbn. split; [apply find_remove_cond_same|auto]. }
+    destruct td as [|done].
+    - (* teardown error *)
+      intros H. injection H as <- <- <-. exists w1, tevs, TdErr. split; [reflexivity|]. split; [assumption|]. split; [reflexivity|].
+      repeat split; intros; exfalso; match goal with H : In _ (map SMember _) |- _ => apply in_map_iff in H; destruct H as (? & ? & _); discriminate end.
+    - destruct done.
+      + (* all phases done *)
+        destruct (os_fin mem) eqn:Efin.
+        * destruct (patch_finalizer (with_w sw w1) mem false) as [sw2 [mem2|]] eqn:Ep.
+          -- intros H. destruct (Hfinish _ _ _ _ _ _ H) as [Hst Hev].
+             pose proof (patch_finalizer_store _ _ _ _ _ Ep) as Hst2. cbn in Hst2.
+             exists w1, tevs, (TdOk true). split; [reflexivity|].
+             assert (Hmem : member_evs evs = tevs).
+             { destruct Hev as [->|(ok & _ & ->)]; rewrite ?member_evs_app, Hmem_members; cbn; now rewrite ?app_nil_r. }
+             split; [assumption|]. split; [congruence|].
+             match type of Hev with context [status_ev (set_conds ?M _) _] => set (mem3 := M) in * end.
+             assert (Hin_cases : forall e, In e evs -> In e (map SMember tevs) \/ e = SMeta (MFinalizer false true) \/
+                        exists ok, archived = true /\ e = status_ev (set_conds mem3 (remove_cond (os_conds mem3) CAvailable)) ok).
+             { intros e Hin. destruct Hev as [->|(ok & Ha & ->)].
+               - apply in_app_or in Hin. destruct Hin as [Hin|[<-|[]]]; auto.
+               - apply in_app_or in Hin. destruct Hin as [Hin|[<-|[]]]; [|right; right; eauto].
+                 apply in_app_or in Hin. destruct Hin as [Hin|[<-|[]]]; auto. }
+             split; [|split].
+             ++ intros ok _. auto.
+             ++ intros rev0 conds ctrlof rem fph ok Hin. destruct (Hin_cases _ Hin) as [Hi|[Hi|(ok' & Ha & Hi)]].
+                ** apply in_map_iff in Hi. destruct Hi as (? & ? & _). discriminate.
+                ** discriminate.
+                ** unfold mem3 in Hi; rewrite Ha in Hi. destruct (Hstatus_fact _ _ _ _ _ _ _ _ Hi) as (H1 & H2 & H3 & H4).
+                   split; [assumption|]. split; [assumption|]. split; [now apply Harch|]. intros _. split; [reflexivity|].
+                   rewrite H4. reflexivity.
+             ++ intros added ok Hin. destruct (Hin_cases _ Hin) as [Hi|[Hi|(ok' & _ & Hi)]].
+                ** apply in_map_iff in Hi. destruct Hi as (? & ? & _). discriminate.
+                ** now injection Hi as ->.
+                ** unfold status_ev, status_ev_f in Hi. discriminate.
+          -- intros H. injection H as <- <- <-. pose proof (patch_finalizer_store _ _ _ _ _ Ep) as Hst2. cbn in Hst2.
+             exists w1, tevs, (TdOk true). split; [reflexivity|]. rewrite member_evs_app, Hmem_members. cbn. rewrite app_nil_r.
+             split; [reflexivity|]. split; [assumption|].
+             split; [|split].
+             ++ intros ok _. auto.
+             ++ intros rev0 conds ctrlof rem fph ok Hin. apply in_app_or in Hin. destruct Hin as [Hi|[Hi|[]]]; [|discriminate].
+                apply in_map_iff in Hi. destruct Hi as (? & ? & _). discriminate.
+             ++ intros added ok Hin. apply in_app_or in Hin. destruct Hin as [Hi|[Hi|[]]]; [|now injection Hi as <-].
+                apply in_map_iff in Hi. destruct Hi as (? & ? & _). discriminate.
+        * intros H. destruct (Hfinish _ _ _ _ _ _ H) as [Hst Hev]. cbn in Hst.
+          exists w1, tevs, (TdOk true). split; [reflexivity|].
+          assert (Hmem : member_evs evs = tevs).
+          { destruct Hev as [->|(ok & _ & ->)]; rewrite ?member_evs_app, Hmem_members; cbn; now rewrite ?app_nil_r. }
+          split; [assumption|]. split; [assumption|].
+          match type of Hev with context [status_ev (set_conds ?M _) _] => set (mem3 := M) in * end.
+          assert (Hin_cases : forall e, In e evs -> In e (map SMember tevs) \/
+                     exists ok, archived = true /\ e = status_ev (set_conds mem3 (remove_cond (os_conds mem3) CAvailable)) ok).
+          { intros e Hin. destruct Hev as [->|(ok & Ha & ->)]; [auto|].
+            apply in_app_or in Hin. destruct Hin as [Hin|[<-|[]]]; [auto|right; eauto]. }
+          split; [|split].
+          -- intros ok Hin. exfalso. destruct (Hin_cases _ Hin) as [Hi|(ok' & _ & Hi)].
+             ++ apply in_map_iff in Hi. destruct Hi as (? & ? & _). discriminate.
+             ++ unfold status_ev, status_ev_f in Hi. discriminate.
+          -- intros rev0 conds ctrlof rem fph ok Hin. destruct (Hin_cases _ Hin) as [Hi|(ok' & Ha & Hi)].
+             ++ apply in_map_iff in Hi. destruct Hi as (? & ? & _). discriminate.
+             ++ unfold mem3 in Hi; rewrite Ha in Hi. destruct (Hstatus_fact _ _ _ _ _ _ _ _ Hi) as (H1 & H2 & H3 & H4).
+                split; [assumption|]. split; [assumption|]. split; [now apply Harch|]. intros _. split; [reflexivity|].
+                rewrite H4. reflexivity.
+          -- intros added ok Hin. exfalso. destruct (Hin_cases _ Hin) as [Hi|(ok' & _ & Hi)].
+             ++ apply in_map_iff in Hi. destruct Hi as (? & ? & _). discriminate.
+             ++ unfold status_ev, status_ev_f in Hi. discriminate.
+      + (* not done: finalizer stays, Archived=False *)
+        intros H. destruct (Hfinish _ _ _ _ _ _ H) as [Hst Hev]. cbn in Hst.
+        exists w1, tevs, (TdOk false). split; [reflexivity|].
+        assert (Hmem : member_evs evs = tevs).
+        { destruct Hev as [->|(ok & _ & ->)]; rewrite ?member_evs_app, Hmem_members; cbn; now rewrite ?app_nil_r. }
+        split; [assumption|]. split; [assumption|].
+        match type of Hev with context [status_ev (set_conds ?M _) _] => set (mem3 := M) in * end.
+        assert (Hin_cases : forall e, In e evs -> In e (map SMember tevs) \/
+                   exists ok, archived = true /\ e = status_ev (set_conds mem3 (remove_cond (os_conds mem3) CAvailable)) ok).
+        { intros e Hin. destruct Hev as [->|(ok & Ha & ->)]; [auto|].
+          apply in_app_or in Hin. destruct Hin as [Hin|[<-|[]]]; [auto|right; eauto]. }
+        split; [|split].
+        * intros ok Hin. exfalso. destruct (Hin_cases _ Hin) as [Hi|(ok' & _ & Hi)].
+          -- apply in_map_iff in Hi. destruct Hi as (? & ? & _). discriminate.
+          -- unfold status_ev, status_ev_f in Hi. discriminate.
+        * intros rev0 conds ctrlof rem fph ok Hin. destruct (Hin_cases _ Hin) as [Hi|(ok' & Ha & Hi)].
+          -- apply in_map_iff in Hi. destruct Hi as (? & ? & _). discriminate.
+          -- unfold mem3 in Hi; rewrite Ha in Hi. destruct (Hstatus_fact _ _ _ _ _ _ _ _ Hi) as (H1 & H2 & H3 & H4).
+             split; [assumption|]. split; [assumption|]. split; [now apply Harch|].
+             intros Hat. exfalso. rewrite H3 in Hat. unfold cond_true in Hat. rewrite find_remove_cond_other in Hat by discriminate.
+             cbn [os_conds set_conds] in Hat.
+             rewrite (find_set_cond_same _ (mk_cond mem CArchived SFalse RArchivalInProgress)) in Hat. cbn in Hat. discriminate.
+        * intros added ok Hin. exfalso. destruct (Hin_cases _ Hin) as [Hi|(ok' & _ & Hi)].
+          -- apply in_map_iff in Hi. destruct Hi as (? & ? & _). discriminate.
+          -- unfold status_ev, status_ev_f in Hi. discriminate.
+  Qed.
+End Deletion.
+
+From Coq Require Import Permutation.
+
+Section SetDeletion.
+  Variable force : bool.
+
+  Lemma nodup_flat_map_rev {A B} (f : A -> list B) l : NoDup (flat_map f l) -> NoDup (flat_map f (rev l)).
+  Proof. apply Permutation_NoDup. apply Permutation_flat_map. apply Permutation_rev. Qed.
+
+  Definition is_going (mem : oset) : Prop :=
+    cond_true (os_conds mem) CArchived = false /\ (os_deleting mem = true \/ os_life mem = LArchived).
+
+  Lemma objectset_pass_going sw k ns n mem0 sw' evs r :
+    find_set (sw_sets sw) k ns n = Some mem0 -> is_going mem0 ->
+    objectset_pass force sw k ns n = (sw', evs, r) -> deletion_pass force sw mem0 = (sw', evs, r).
+  Proof.
+    intros Hfind (Ha & Hg). unfold objectset_pass. rewrite Hfind, Ha.
+    assert (os_deleting mem0 || lifecycle_eqb (os_life mem0) LArchived = true) as ->.
+    { destruct Hg as [->| ->]; [reflexivity|apply orb_true_r]. }
+    auto.
+  Qed.
+
+  (** C04: the finalizer is removed, or Archived=True reported, only when every object listed in the
+      phases is absent or no longer controlled by the ObjectSet (or excluded by the teardown preflight);
+      orphan deletion excepted (C05). *)
+  Theorem C04_finalizer_held_until_done sw k ns n mem0 sw' evs r :
+    find_set (sw_sets sw) k ns n = Some mem0 -> is_going mem0 -> desired_keys_nodup mem0 ->
+    os_fin mem0 = true -> os_orphan mem0 = false ->
+    objectset_pass force sw k ns n = (sw', evs, r) ->
+    ((exists ok, In (SMeta (MFinalizer false ok)) evs) \/
+     (exists rev0 conds ctrlof rem fph ok, In (SMeta (MStatus rev0 conds ctrlof rem fph ok)) evs /\ cond_true conds CArchived = true)) ->
+    forall q p, In q (local_phases mem0) -> In p (ph_objects q) -> td_obj_done (sw_w sw') (as_owner mem0) p.
+  Proof.
+    intros Hfind Hgo Hnd Hfin Horph H Hev q p Hq Hp.
+    pose proof (objectset_pass_going _ _ _ _ _ _ _ _ Hfind Hgo H) as Hd.
+    destruct (deletion_pass_inv force _ _ _ _ _ Hd) as (w1 & tevs & td & Htd & _ & Hst & Hf & Hs & _).
+    assert (Htdok : td = TdOk true).
+    { destruct Hev as [(ok & Hi)|(rev0 & conds & ctrlof & rem & fph & ok & Hi & Ha)].
+      - now destruct (Hf _ Hi).
+      - destruct (Hs _ _ _ _ _ _ Hi) as (_ & _ & _ & Hx). now destruct (Hx Ha). }
+    subst td. unfold teardown_of in Htd. rewrite Hfin, Horph in Htd.
+    assert (Hq' : In q (rev (local_phases mem0))) by now apply in_rev in Hq.
+    pose proof (tp_done force _ _ _ _ _ Htd (nodup_flat_map_rev _ _ Hnd) q p Hq' Hp) as Hdone.
+    unfold td_obj_done in *. now rewrite Hst.
+  Qed.
+
+  (** C04: within a teardown pass a request names an object of a phase only if every object of every
+      LATER phase is already absent / no longer controlled. *)
+  Theorem C04_reverse_order sw k ns n mem0 sw' evs r :
+    find_set (sw_sets sw) k ns n = Some mem0 -> is_going mem0 -> desired_keys_nodup mem0 ->
+    objectset_pass force sw k ns n = (sw', evs, r) ->
+    forall pre ph post, local_phases mem0 = pre ++ ph :: post ->
+      Exists (fun e => In (ev_key e) (phase_keys (as_owner mem0) ph)) (member_evs evs) ->
+      forall q p, In q post -> In p (ph_objects q) -> td_obj_done (sw_w sw') (as_owner mem0) p.
+  Proof.
+    intros Hfind Hgo Hnd H pre ph post Hsplit Hex q p Hq Hp.
+    pose proof (objectset_pass_going _ _ _ _ _ _ _ _ Hfind Hgo H) as Hd.
+    destruct (deletion_pass_inv force _ _ _ _ _ Hd) as (w1 & tevs & td & Htd & Hmem & Hst & _).
+    rewrite Hmem in Hex. unfold teardown_of in Htd.
+    destruct (os_fin mem0); [|injection Htd as _ <- _; inversion Hex].
+    destruct (os_orphan mem0); [injection Htd as _ <- _; inversion Hex|].
+    assert (Hrev : rev (local_phases mem0) = rev post ++ ph :: rev pre).
+    { rewrite Hsplit, rev_app_distr. cbn. now rewrite <- app_assoc. }
+    pose proof (tp_order force _ _ _ _ _ _ Htd (nodup_flat_map_rev _ _ Hnd) (rev post) ph (rev pre) Hrev Hex q p) as Hdone.
+    unfold td_obj_done in *. rewrite Hst. apply Hdone; [now apply in_rev in Hq|assumption].
+  Qed.
+
+  (** C05, last clause: an ObjectSet deleted with orphan propagation sends no request for any member. *)
+  Theorem C05_orphan_deletes_nothing sw k ns n mem0 sw' evs r :
+    find_set (sw_sets sw) k ns n = Some mem0 -> is_going mem0 -> os_orphan mem0 = true ->
+    objectset_pass force sw k ns n = (sw', evs, r) ->
+    member_evs evs = [] /\ w_store (sw_w sw') = w_store (sw_w sw).
+  Proof.
+    intros Hfind Hgo Ho H.
+    pose proof (objectset_pass_going _ _ _ _ _ _ _ _ Hfind Hgo H) as Hd.
+    destruct (deletion_pass_inv force _ _ _ _ _ Hd) as (w1 & tevs & td & Htd & Hmem & Hst & _).
+    unfold teardown_of in Htd. rewrite Ho in Htd.
+    destruct (os_fin mem0); injection Htd as <- <- _; auto.
+  Qed.
+
+  (** C06: once Archived=True is recorded the ObjectSet is not reconciled again: no request at all. *)
+  Theorem C06_archived_not_reconciled sw k ns n mem0 :
+    find_set (sw_sets sw) k ns n = Some mem0 -> cond_true (os_conds mem0) CArchived = true ->
+    objectset_pass force sw k ns n = (sw, [], SNothing).
+  Proof. intros Hf Ha. unfold objectset_pass. now rewrite Hf, Ha. Qed.
+
+  (** C06: status written while deleting/archiving never carries an Available condition; the request that
+      reports Archived=True carries an empty controllerOf. *)
+  Theorem C06_archival_status sw k ns n mem0 sw' evs r rev0 conds ctrlof rem fph ok :
+    find_set (sw_sets sw) k ns n = Some mem0 -> is_going mem0 ->
+    objectset_pass force sw k ns n = (sw', evs, r) ->
+    In (SMeta (MStatus rev0 conds ctrlof rem fph ok)) evs ->
+    find_cond conds CAvailable = None /\ (cond_true conds CArchived = true -> ctrlof = []).
+  Proof.
+    intros Hfind Hgo H Hi.
+    pose proof (objectset_pass_going _ _ _ _ _ _ _ _ Hfind Hgo H) as Hd.
+    destruct (deletion_pass_inv force _ _ _ _ _ Hd) as (w1 & tevs & td & _ & _ & _ & _ & Hs & _).
+    destruct (Hs _ _ _ _ _ _ Hi) as (Ha & _ & _ & Hx). split; [assumption|]. intros Hc. now destruct (Hx Hc).
+  Qed.
+End SetDeletion.
+
+(** * Succeeded is never withdrawn (C06, history clause) *)
+Section Succeeded.
+  Variable force : bool.
+  Variables k ns n : N.        (* the ObjectSet under consideration *)
+  Variable sw0 : sworld.       (* the world before the pass *)
+
+  Definition succ (m : oset) : Prop := cond_true (os_conds m) CSucceeded = true.
+  Definition has_key (m : oset) : Prop := oi_kind (os_id m) = k /\ oi_ns (os_id m) = ns /\ oi_name (os_id m) = n.
+  (** every stored copy of the ObjectSet has Succeeded=True *)
+  Definition all_succ (sw : sworld) : Prop := forall st, In st (sw_sets sw) -> has_key st -> succ st.
+
+  Definition okm (m : oset) : Prop := has_key m /\ (all_succ sw0 -> succ m).
+  Definition okw (sw : sworld) : Prop := forall x, In x (sw_sets sw) -> In x (sw_sets sw0) \/ okm x.
+
+  Lemma okw_stored sw st : okw sw -> In st (sw_sets sw) -> has_key st -> okm st.
+  Proof. intros Hw Hin Hk. destruct (Hw _ Hin) as [H0|H0]; [|assumption]. split; [assumption|]. intros G. now apply G. Qed.
+
+  Lemma in_put_set sets s x : In x (put_set sets s) -> x = s \/ In x sets.
+  Proof.
+    induction sets as [|y ys IH]; cbn; [intros [<-|[]]; now left|].
+    destruct (oid_eqb (os_id y) (os_id s)); cbn.
+    - intros [<-|H]; [now left|right; now right].
+    - intros [<-|H]; [right; now left|]. destruct (IH H) as [->|H']; [now left|right; now right].
+  Qed.
+
+  Lemma in_del_set sets id x : In x (del_set sets id) -> In x sets.
+  Proof. unfold del_set. intros H. apply filter_In in H. tauto. Qed.
+
+  Lemma find_set_in sets k0 ns0 n0 st : find_set sets k0 ns0 n0 = Some st -> In st sets.
+  Proof. unfold find_set. intros H. apply find_some in H. tauto. Qed.
+
+  Lemma succ_same_conds a b : os_conds a = os_conds b -> succ b -> succ a.
+  Proof. unfold succ. now intros ->. Qed.
+
+  Lemma update_status_ok sw m sw' m' ok :
+    okw sw -> okm m -> update_status sw m = (sw', m', ok) -> okw sw' /\ okm m'.
+  Proof.
+    intros Hw Hm. unfold update_status.
+    destruct (find_set _ _ _ _) as [st|] eqn:Ef; [|intros H; injection H as <- <- _; auto].
+    destruct (negb _); [intros H; injection H as <- <- _; auto|].
+    destruct (status_eqb st m); intros H; injection H as <- <- _; [auto|].
+    pose proof (find_set_id _ _ _ _ _ Ef) as Hid. destruct Hm as [(Hk1 & Hk2 & Hk3) Hs].
+    assert (Hnew : okm (with_status st m (w_rv (sw_w sw)))).
+    { split; [|intros G; eapply succ_same_conds; [|exact (Hs G)]; reflexivity].
+      unfold has_key. cbn. destruct Hid as (-> & -> & ->). auto. }
+    split; [|exact Hnew]. intros x Hin. cbn in Hin. apply in_put_set in Hin. destruct Hin as [->|Hin]; [now right|now apply Hw].
+  Qed.
+
+  Lemma update_status_okw sw m sw' m' ok :
+    update_status sw m = (sw', m', ok) -> okw sw -> okm m -> okw sw'.
+  Proof. intros E Hw Hm. now destruct (update_status_ok _ _ _ _ _ Hw Hm E). Qed.
+
+  Lemma patch_finalizer_ok sw m fin sw' r :
+    okw sw -> okm m -> patch_finalizer sw m fin = (sw', r) ->
+    okw sw' /\ match r with Some m' => okm m' | None => True end.
+  Proof.
+    intros Hw Hm. unfold patch_finalizer.
+    destruct (find_set _ _ _ _) as [st|] eqn:Ef; [|intros H; injection H as <- <-; auto].
+    destruct (negb (os_rv st =? os_rv m)); [intros H; injection H as <- <-; auto|].
+    pose proof (find_set_id _ _ _ _ _ Ef) as Hid. pose proof (find_set_in _ _ _ _ _ Ef) as Hin.
+    assert (Hst : okm st).
+    { apply (okw_stored sw); auto. destruct Hm as [(Hk1 & Hk2 & Hk3) _]. unfold has_key. destruct Hid as (-> & -> & ->). auto. }
+    assert (Hnew : okm (set_fin st fin (w_rv (sw_w sw)))).
+    { destruct Hst as [Hk Hs]. split; [exact Hk|]. intros G. eapply succ_same_conds; [|exact (Hs G)]. reflexivity. }
+    destruct (negb fin && os_deleting st && negb (os_orphan st)); intros H; injection H as <- <-; (split; [|exact Hnew]).
+    - intros x Hx. cbn in Hx. apply in_del_set in Hx. now apply Hw.
+    - intros x Hx. cbn in Hx. apply in_put_set in Hx. destruct Hx as [->|Hx]; [now right|now apply Hw].
+  Qed.
+
+  Lemma okm_conds m m' : okm m -> os_id m' = os_id m ->
+    find_cond (os_conds m') CSucceeded = find_cond (os_conds m) CSucceeded -> okm m'.
+  Proof.
+    intros [(H1 & H2 & H3) Hs] Hid Hc. split; [unfold has_key; now rewrite Hid|].
+    intros G. specialize (Hs G). unfold succ, cond_true in *. now rewrite Hc.
+  Qed.
+
+  Lemma okw_with_w sw w : okw sw -> okw (with_w sw w).
+  Proof. auto. Qed.
+
+  Lemma revision_pass_ok sw mem sw1 evs1 mem1 rr :
+    okw sw -> okm mem -> revision_pass sw mem = (sw1, evs1, mem1, rr) -> okw sw1 /\ okm mem1.
+  Proof.
+    intros Hw Hm. unfold revision_pass.
+    destruct (negb (Z.eqb (os_revision mem) 0)); [intros H; injection H as <- _ <- _; auto|].
+    destruct (os_prev mem); [intros H; injection H as <- _ <- _; split; [auto|eapply okm_conds; [exact Hm|reflexivity|reflexivity]]|].
+    destruct (scan_prev _ _ _ _) as [[latest|]|].
+    - destruct (update_status sw (set_revision mem (latest + 1))) as [[sw2 m2] ok] eqn:Eu.
+      intros H; injection H as <- _ <- _. eapply update_status_ok; [exact Hw| |exact Eu]. eapply okm_conds; [exact Hm|reflexivity|reflexivity].
+    - intros H; injection H as <- _ <- _; auto.
+    - intros H; injection H as <- _ <- _; auto.
+  Qed.
+
+  Lemma active_body_ok sw evs0 mem sw' evs r :
+    okw sw -> okm mem -> active_body force sw evs0 mem = (sw', evs, r) -> okw sw'.
+  Proof.
+    intros Hw Hm. unfold active_body.
+    destruct (revision_pass sw mem) as [[[sw1 evs1] mem1] rr] eqn:Erev.
+    destruct (revision_pass_ok _ _ _ _ _ _ Hw Hm Erev) as [Hw1 Hm1].
+    assert (Hfail : forall sw2 evsx rs swf evsf rf, okw sw2 ->
+              (let m' := set_conds mem1 (set_cond (os_conds mem1) (mk_cond mem1 CAvailable SFalse rs)) in
+               let '(sw'', _, ok) := update_status sw2 m' in
+               (sw'', evsx ++ [status_ev m' ok], if ok then SDone true else SError)) = (swf, evsf, rf) -> okw swf).
+    { intros sw2 evsx rs swf evsf rf Hw2. cbv zeta. destruct (update_status sw2 _) as [[sw3 m3] ok] eqn:Eu.
+      intros H. injection H as <- _ _. eapply update_status_okw; [exact Eu|exact Hw2|].
+      eapply okm_conds; [exact Hm1|reflexivity|]. cbn [os_conds set_conds]. apply find_set_cond_other. cbn. discriminate. }
+    destruct rr.
+    - destruct (Nat.ltb 0 (dup_count [] (map (spec_key mem1) (all_objects mem1)))); [intros H; eapply Hfail; eauto|].
+      destruct (reconcile_phases force (sw_w sw1) (as_owner mem1) _ _ []) as [[w2 pevs] pr].
+      destruct pr as [e| |ctrlof failed].
+      + destruct e; try (intros H; eapply Hfail; [|exact H]; (apply okw_with_w; assumption));
+          intros H; injection H as <- _ _; (apply okw_with_w; assumption).
+      + intros H; eapply Hfail; [|exact H]; (apply okw_with_w; assumption).
+      + destruct (update_status (with_w sw1 w2) (final_status mem1 ctrlof failed)) as [[sw3 m3] ok] eqn:Eu.
+        intros H. injection H as <- _ _. eapply update_status_okw; [exact Eu|(apply okw_with_w; assumption)|].
+        destruct Hm1 as [Hk Hs]. split; [exact Hk|]. intros G. now apply final_status_succeeded, Hs.
+    - destruct (update_status sw1 _) as [[sw2 m2] ok] eqn:Eu. intros H. injection H as <- _ _.
+      eapply update_status_okw; [exact Eu|exact Hw1|].
+      eapply okm_conds; [exact Hm1|reflexivity|]. cbn [os_conds set_conds]. apply paused_cond_other. discriminate.
+    - intros H. injection H as <- _ _. exact Hw1.
+  Qed.
+
+  Lemma deletion_pass_ok sw mem sw' evs r :
+    okw sw -> okm mem -> deletion_pass force sw mem = (sw', evs, r) -> okw sw'.
+  Proof.
+    intros Hw Hm. unfold deletion_pass.
+    set (archived := lifecycle_eqb (os_life mem) LArchived).
+    change (if os_fin mem then if os_orphan mem then (sw_w sw, [], TdOk true)
+            else teardown_phases force (sw_w sw) (as_owner mem) (rev (filter (fun ph => negb (ph_class ph)) (os_phases mem)))
+            else (sw_w sw, [], TdOk true)) with (teardown_of force sw mem).
+    destruct (teardown_of force sw mem) as [[w1 tevs] td].
+    assert (Hfinish : forall sw1 evs1 mem1 swf evsf rf,
+       (if negb archived then (sw1, evs1, SDone false)
+        else let '(sw'', _, ok) := update_status sw1 (set_conds mem1 (remove_cond (os_conds mem1) CAvailable)) in
+             (sw'', evs1 ++ [status_ev (set_conds mem1 (remove_cond (os_conds mem1) CAvailable)) ok], if ok then SDone false else SError)) = (swf, evsf, rf) ->
+       okw sw1 -> okm mem1 -> okw swf).
+    { intros sw1 evs1 mem1 swf evsf rf. destruct (negb archived); [intros H Hw1 Hm1; injection H as <- _ _; exact Hw1|].
+      destruct (update_status sw1 _) as [[sw2 m2] ok] eqn:Eu. intros H Hw1 Hm1. injection H as <- _ _.
+      eapply update_status_okw; [exact Eu|exact Hw1|].
+      eapply okm_conds; [exact Hm1|reflexivity|]. cbn [os_conds set_conds]. apply find_remove_cond_other. discriminate. }
+    assert (Harch_ok : forall m0, okm m0 -> okm (if archived then set_ctrlof (set_conds m0 (set_cond (os_conds m0) (mk_cond m0 CArchived STrue RArchived))) [] else m0)).
+    { intros m0 H0. destruct archived; [|exact H0]. eapply okm_conds; [exact H0|reflexivity|].
+      cbn [os_conds set_conds set_ctrlof]. apply find_set_cond_other. cbn. discriminate. }
+    destruct td as [|[|]].
+    - intros H. injection H as <- _ _. (apply okw_with_w; assumption).
+    - destruct (os_fin mem).
+      + destruct (patch_finalizer (with_w sw w1) mem false) as [sw2 [mem2|]] eqn:Ep;
+          destruct (patch_finalizer_ok _ _ _ _ _ (okw_with_w _ w1 Hw) Hm Ep) as [Hw2 Hm2].
+        * intros H. eapply Hfinish; [exact H|exact Hw2|]. now apply Harch_ok.
+        * intros H. injection H as <- _ _. exact Hw2.
+      + intros H. eapply Hfinish; [exact H|apply okw_with_w; assumption|]. now apply Harch_ok.
+    - intros H. eapply Hfinish; [exact H|apply okw_with_w; assumption|].
+      destruct archived; [|exact Hm]. eapply okm_conds; [exact Hm|reflexivity|].
+      cbn [os_conds set_conds]. apply find_set_cond_other. cbn. discriminate.
+  Qed.
+
+  (** One Reconcile of the ObjectSet never withdraws Succeeded: if every stored copy had it before, every
+      stored copy has it afterwards. *)
+  Theorem C06_succeeded_never_withdrawn sw' evs r :
+    all_succ sw0 -> objectset_pass force sw0 k ns n = (sw', evs, r) -> all_succ sw'.
+  Proof.
+    intros G H.
+    assert (Hw0 : okw sw0) by (intros x Hx; now left).
+    assert (Hfin : okw sw' -> all_succ sw').
+    { intros Hw st Hin Hk. destruct (Hw _ Hin) as [H0|[_ H0]]; [now apply G|now apply H0]. }
+    apply Hfin. unfold objectset_pass in H.
+    destruct (find_set (sw_sets sw0) k ns n) as [mem|] eqn:Ef; [|now injection H as <- _ _].
+    destruct (cond_true (os_conds mem) CArchived); [now injection H as <- _ _|].
+    assert (Hm : okm mem).
+    { split; [exact (find_set_id _ _ _ _ _ Ef)|]. intros _. apply G; [eapply find_set_in; eauto|exact (find_set_id _ _ _ _ _ Ef)]. }
+    destruct (os_deleting mem || lifecycle_eqb (os_life mem) LArchived).
+    - eapply deletion_pass_ok; eauto.
+    - unfold active_pass in H. destruct (os_fin mem); [eapply active_body_ok; eauto|].
+      destruct (patch_finalizer sw0 mem true) as [sw1 [m|]] eqn:Ep;
+        destruct (patch_finalizer_ok _ _ _ _ _ Hw0 Hm Ep) as [Hw1 Hm1].
+      + eapply active_body_ok; eauto.
+      + now injection H as <- _ _.
+  Qed.
+End Succeeded.
+
+(** * The duplicate check makes the NoDup hypotheses of the theorems above redundant *)
+Section DupFree.
+  Variable force : bool.
+
+  Lemma dup_count_zero ks : forall seen,
+    dup_count seen ks = O -> NoDup ks /\ forall k, In k ks -> ~ In k seen.
+  Proof.
+    induction ks as [|k r IH]; intros seen H; cbn in H.
+    - split; [constructor|]. intros k [].
+    - destruct (existsb (okey_eqb k) seen) eqn:E; [discriminate|].
+      destruct (IH _ H) as [Hnd Hdis]. split.
+      + constructor; [|exact Hnd]. intros Hin. apply (Hdis k Hin). now left.
+      + intros k0 [<-|Hin] Hs.
+        * assert (existsb (okey_eqb k) seen = true) by (apply existsb_exists; exists k; split; [assumption|apply okey_eqb_refl]). congruence.
+        * apply (Hdis k0 Hin). now right.
+  Qed.
+
+  Lemma nodup_flat_map_filter {A B} (f : A -> list B) (g : A -> bool) l :
+    NoDup (flat_map f l) -> NoDup (flat_map f (filter g l)).
+  Proof.
+    induction l as [|x xs IH]; cbn; [auto|]. intros H.
+    pose proof (NoDup_app_r _ _ H) as Hr. destruct (g x); cbn; [|now apply IH].
+    (* f x ++ flat_map f (filter g xs): sub-sequence of a NoDup list *)
+    pose proof (NoDup_app_l _ _ H) as Hl. specialize (IH Hr).
+    clear Hr. induction (f x) as [|b bs IHb]; cbn; [exact IH|].
+    cbn in H, Hl. inversion H as [|? ? Hnotin Hnd]; subst. inversion Hl; subst.
+    constructor; [|apply IHb; assumption].
+    intros Hin. apply Hnotin. apply in_app_or in Hin. apply in_or_app. destruct Hin as [Hin|Hin]; [now left|right].
+    apply in_flat_map in Hin. destruct Hin as (y & Hy & Hby). apply in_flat_map. exists y. split; [|assumption].
+    apply filter_In in Hy. tauto.
+  Qed.
+
+  Lemma all_keys_flat m : map (spec_key m) (all_objects m) = flat_map (phase_keys (as_owner m)) (os_phases m).
+  Proof.
+    unfold all_objects, phase_keys, spec_key, key_of. induction (os_phases m) as [|ph r IH]; cbn; [reflexivity|].
+    now rewrite map_app, IH.
+  Qed.
+
+  Lemma dup_zero_nodup m : dup_count [] (map (spec_key m) (all_objects m)) = O -> desired_keys_nodup m.
+  Proof.
+    intros H. destruct (dup_count_zero _ _ H) as [Hnd _]. rewrite all_keys_flat in Hnd.
+    unfold desired_keys_nodup, local_phases. now apply nodup_flat_map_filter.
+  Qed.
+
+  Lemma desired_keys_nodup_same m1 m0 : same_spec m1 m0 -> desired_keys_nodup m1 -> desired_keys_nodup m0.
+  Proof.
+    intros Hs. unfold desired_keys_nodup. destruct (as_owner_keys _ _ Hs) as (Hl & _). rewrite Hl.
+    intros H. erewrite flat_map_ext; [exact H|]. intros ph. symmetry. now apply phase_keys_same.
+  Qed.
+
+  (** C03 without any hypothesis on the spec: the duplicate check of the same pass supplies it. *)
+  Theorem C03_rollout_gated_all sw k ns n mem0 sw' evs r :
+    find_set (sw_sets sw) k ns n = Some mem0 -> is_active mem0 ->
+    objectset_pass force sw k ns n = (sw', evs, r) ->
+    forall pre ph post, local_phases mem0 = pre ++ ph :: post ->
+      Exists (fun e => In (ev_key e) (phase_keys (as_owner mem0) ph)) (member_evs evs) ->
+      forall q, In q pre -> phase_ok (sw_w sw') (as_owner mem0) q.
+  Proof.
+    intros Hfind Hact H pre ph post Hsplit Hex q Hq.
+    destruct (objectset_pass_active force _ _ _ _ _ _ _ _ Hfind Hact H) as [[_ Hkeep]|Hr].
+    - rewrite (status_keeps_members _ _ Hkeep) in Hex. inversion Hex.
+    - destruct Hr as (mem1 & w0 & sets1 & w2 & pr & pre0 & Hs & _ & Hdup & _).
+      eapply C03_rollout_gated; eauto. eapply desired_keys_nodup_same; [exact Hs|]. now apply dup_zero_nodup.
+  Qed.
+
+  Theorem C06_available_true_justified_all sw k ns n mem0 sw' evs r rev conds ctrlof rem fph ok cd :
+    find_set (sw_sets sw) k ns n = Some mem0 -> is_active mem0 ->
+    objectset_pass force sw k ns n = (sw', evs, r) ->
+    In (SMeta (MStatus rev conds ctrlof rem fph ok)) evs ->
+    find_cond conds CAvailable = Some cd -> cd_status cd = STrue ->
+    find_cond (os_conds mem0) CAvailable <> Some cd ->
+    cd_gen cd = os_gen mem0 /\ fph = None /\
+    (forall q, In q (local_phases mem0) -> phase_ok (sw_w sw') (as_owner mem0) q) /\
+    (forall key, In key ctrlof -> seen_controlled (sw_w sw') (as_owner mem0) key) /\
+    (forall key, In key (flat_map (phase_keys (as_owner mem0)) (local_phases mem0)) ->
+                 seen_controlled (sw_w sw') (as_owner mem0) key -> In key ctrlof).
+  Proof.
+    intros Hfind Hact H Hin Hfc Hst Hnew.
+    destruct (objectset_pass_active force _ _ _ _ _ _ _ _ Hfind Hact H) as [[_ Hkeep]|Hr].
+    - exfalso. rewrite Forall_forall in Hkeep. specialize (Hkeep _ Hin). cbn in Hkeep.
+      destruct Hkeep as (_ & [Ha|(cd' & Ha & Hf)] & _).
+      + apply Hnew. now rewrite <- Ha.
+      + rewrite Hfc in Ha. injection Ha as <-. rewrite Hst in Hf. discriminate.
+    - destruct Hr as (mem1 & w0 & sets1 & w2 & pr & pre0 & Hs & _ & Hdup & _).
+      eapply C06_available_true_justified; eauto. eapply desired_keys_nodup_same; [exact Hs|]. now apply dup_zero_nodup.
+  Qed.
+End DupFree.
